@@ -32,7 +32,7 @@ macro_rules! stats_struct {
 }
 stats_struct!(
     bodies, applies, deliveries, postponed, max_postponed_one_target, nested_replay, skipped_dead, skipped_dead_postponed, optional_taken, optional_skipped, polled_events, polled_in_tree, polled_reactions, payloads, payload_zero_listeners, payload_abort_release, doomed_insts, once_fired, once_retrigger_after_fire, revokes_applied, revoke_mid_dispatch, kills, kill_self, err_returns, excl_bodies, registrations, reg_dead_entity, slot_respawn, max_depth, roots, multi_kind_same_tree, sibling_reorder, frames, guaranteed_gc, guaranteed_poll, a1_ambiguous, ewr_bodies, ewr_nodata_ok, inserts_dead_at_apply, setifneq_equal, setifneq_diff, removal_reinsert_removal, sig_zero, entity_recursive_despawn, fifo_pairs_checked, sys_calls, reactors_per_key_ge7,
-    probes, ev_total, replayed, sys_recursive, acc_ops, single_acc, app_setup_again, bulk_collected, max_bulk, ewr_readd, res_removed, res_trigger_while_absent, excl_flushed_in_body, sig_zero_during_gc, sig_moved_into_entity, collected_observed, sig_zero_in_tree, payload_owned_signal_released, sys_cleared, dw_bodies, dw_self_postponed, dw_self_ran, polled_after_last_poll, sys_dw_calls, excl_flushed_mid_trigger, trigger_raced_pending, rc_inst_released, rc_scratch, sys_reinserted
+    probes, ev_total, replayed, sys_recursive, acc_ops, single_acc, app_setup_again, bulk_collected, max_bulk, ewr_readd, res_removed, res_trigger_while_absent, excl_flushed_in_body, sig_zero_during_gc, sig_moved_into_entity, collected_observed, sig_zero_in_tree, payload_owned_signal_released, sys_cleared, dw_bodies, dw_self_postponed, dw_self_ran, polled_after_last_poll, sys_dw_calls, excl_flushed_mid_trigger, trigger_raced_pending, rc_inst_released, rc_scratch, sys_reinserted, gc_takes, max_gc_nesting, gc_nested_deferred, reactor_bulk, max_reactor_bulk
 );
 
 #[derive(Clone, Debug)]
@@ -306,6 +306,10 @@ pub struct Checker<'a>
     /// entities a collection inside a tree / batch should have taken: judged at the end of the step
     gc_overdue: Vec<EntId>,
     gc_overdue_insts: Vec<usize>,
+    /// entities that collection passes are busy despawning (innermost last)
+    gc_taking: Vec<u64>,
+    /// a removal or despawn trigger was revoked at some point of this run
+    revoked_polled: bool,
     gc_before: Vec<bool>,
     /// entities whose last signal clone went inside the current root tree: every runner exit collects, so they must be gone
     /// when the tree ends
@@ -334,7 +338,7 @@ macro_rules! fail {
     }};
 }
 
-fn is_floating(ev: &Ev) -> bool { matches!(ev, Ev::Drop(_) | Ev::Canary(_) | Ev::Bystander(_) | Ev::Gone(_)) }
+fn is_floating(ev: &Ev) -> bool { matches!(ev, Ev::Drop(_) | Ev::Canary(_) | Ev::Bystander(_) | Ev::Gone(_) | Ev::GcTake(_)) }
 
 impl<'a> Checker<'a>
 {
@@ -350,7 +354,7 @@ impl<'a> Checker<'a>
             tokens: vec![None; prog.insts.len()], res: [0, 0, 0], res_t_present: true, payloads: HashMap::new(), pending_immediate_drop: None,
             polled: Vec::new(), postponed: Vec::new(), stack: Vec::new(), tree_depth: 0, seq: 0, sender: (DRIVER, 0),
             wr_keys: [Vec::new(), Vec::new()], sigs: vec![(None, 0); 4], doomed_ents: Vec::new(), resolve_uncertain: Vec::new(), fifo: HashMap::new(),
-            gc_guaranteed_this_step: false, in_direct_step: false, in_gc: false, in_op_prologue: false, pre_targets: None, pre_ent: None, pre_t_present: None, poll_epoch: 0, sure_epoch: 0, gc_must: Vec::new(), gc_pending_deadline: false, gc_overdue: Vec::new(), gc_overdue_insts: Vec::new(), gc_before: Vec::new(), doomed_in_tree: Vec::new(), sig_harness: [0; 4], deferred_bail: None, bulk_released: 0, bulk_held: 0, bulk_alive: 0, wq: Default::default(), iss_counter: 0, cur_iss: 0, iss_of: HashMap::new(), sys: Default::default(),
+            gc_guaranteed_this_step: false, in_direct_step: false, in_gc: false, in_op_prologue: false, pre_targets: None, pre_ent: None, pre_t_present: None, poll_epoch: 0, sure_epoch: 0, gc_must: Vec::new(), gc_pending_deadline: false, gc_overdue: Vec::new(), gc_overdue_insts: Vec::new(), gc_taking: Vec::new(), revoked_polled: false, gc_before: Vec::new(), doomed_in_tree: Vec::new(), sig_harness: [0; 4], deferred_bail: None, bulk_released: 0, bulk_held: 0, bulk_alive: 0, wq: Default::default(), iss_counter: 0, cur_iss: 0, iss_of: HashMap::new(), sys: Default::default(),
         }
     }
 
@@ -481,6 +485,15 @@ impl<'a> Checker<'a>
         if let Some(why) = self.deferred_bail.take() { return Err(Stop::Bail(Bail(why))); }
         while self.pos < self.trace.len() && is_floating(&self.trace[self.pos])
         {
+            // which entities collection passes have received and are busy despawning right now (a hook event tells)
+            match &self.trace[self.pos]
+            {
+                Ev::GcTake(bits) => { self.gc_taking.push(*bits); self.stats.gc_takes += 1; if self.gc_taking.len() as u64 > self.stats.max_gc_nesting { self.stats.max_gc_nesting = self.gc_taking.len() as u64; } }
+                // (... until it is observed going: the remove hook of a slot entity, the dropped state of a system)
+                Ev::Gone(bits) => { self.gc_taking.retain(|b| b != bits); }
+                Ev::Canary(i) => { if let Some(r) = self.insts[*i as usize].real { self.gc_taking.retain(|b| *b != r); } }
+                _ => {}
+            }
             self.floats.push(self.pos);
             self.pos += 1;
         }
@@ -675,6 +688,7 @@ impl<'a> Checker<'a>
         for t in trigs
         {
             self.insts[inst as usize].revoked_keys.push(*t);
+            if matches!(*t, MTrig::Tw(Key::Rem(_)) | MTrig::Ent(_, EKind::Rem(_)) | MTrig::Despawn(_)) { self.revoked_polled = true; }
             match *t
             {
                 MTrig::Tw(k) =>
@@ -867,9 +881,16 @@ impl<'a> Checker<'a>
         // "the first garbage collection after" its last trigger disappeared is the next one)
         // (a collection requested from inside a tree or a batch may run nested inside the despawn of the very thing an enclosing
         // collection is taking, see below: then the verdict waits for the end of the step)
-        let strict = self.in_direct_step && self.tree_depth == 0;
+        let taking = self.gc_taking.clone();
         let mut later = Vec::new();
-        for (i, t) in self.insts.iter_mut().enumerate() { if t.doomed && t.alive && !t.busy && before.get(i).copied().unwrap_or(true) { if strict { t.alive = false; } else { later.push(i); } } }
+        for (i, t) in self.insts.iter_mut().enumerate()
+        {
+            if t.doomed && t.alive && !t.busy && before.get(i).copied().unwrap_or(true)
+            {
+                if t.real.map(|r| taking.contains(&r)).unwrap_or(false) { later.push(i); } else { t.alive = false; }
+            }
+        }
+        if !later.is_empty() { self.stats.gc_nested_deferred += 1; }
         self.gc_overdue_insts.extend(later);
         for e in std::mem::take(&mut self.gc_must)
         {
@@ -878,7 +899,7 @@ impl<'a> Checker<'a>
                 // A collection requested from inside a reaction tree or a batch may itself run inside the flush that Bevy performs at
                 // the start of `World::despawn` -- of the very entity an enclosing collection is busy taking. It then finds nothing
                 // to do and the enclosing one finishes the job right after: judged when the step is over.
-                if !(self.in_direct_step && self.tree_depth == 0) { self.gc_overdue.push(e); continue; }
+                if self.being_taken(e) { self.gc_overdue.push(e); self.stats.gc_nested_deferred += 1; continue; }
                 let bits = self.real(e);
                 fail!(self, "C10", "autodespawn-leak", &[], "entity {bits:#x} survived a garbage collection although every clone of its signal had been dropped before the collection started");
             }
@@ -1120,6 +1141,9 @@ impl<'a> Checker<'a>
                     let cause = match p.kind { PKind::Removal(c) => Cause::Rem(c, p.ent), PKind::Despawn => Cause::Despawn(p.ent) };
                     // raised inside a tree: "may run at any later system-command boundary of the same tree" (C09) is violated too
                     if p.in_tree { fail!(self, "C08", "polled-missing", &["C01", "C02", "C09", "C11"], "no run of instance {inst} for {cause:?} by the end of the tree that caused it (something is still waiting to run when the outermost flush returns); next observed: {ev:?}"); }
+                    // (a removal / despawn trigger of some reactor was revoked earlier in this run: "registrations of other reactors and
+                    // other triggers ... keep working", C06)
+                    if self.revoked_polled { fail!(self, "C08", "polled-missing", &["C01", "C02", "C06"], "no run of instance {inst} for {cause:?} by its deadline (a removal / despawn trigger was revoked earlier in this run; that must not affect other registrations); next observed: {ev:?}"); }
                     fail!(self, "C08", "polled-missing", &["C01", "C02"], "no run of instance {inst} for {cause:?} by its deadline; next observed: {ev:?}");
                 }
                 if let Some(r) = reg { self.drop_handle(*r); self.stats.skipped_dead += 1; }
@@ -2258,6 +2282,19 @@ impl<'a> Checker<'a>
                 if !mid && *hold { fail!(self, "C10", "premature-autodespawn", &["C07"], "a system spawned with {route} was despawned by a garbage collection (or never existed) while a clone of its signal was still held"); }
                 if after { fail!(self, "C10", "autodespawn-leak", &["C07"], "a system spawned with {route} exists after its last signal clone was dropped and a garbage collection ran"); }
             }
+            WOp::ReactorBulk(n, mode) =>
+            {
+                if !self.in_direct_step || self.tree_depth > 0 { return bail("bulk reactor release inside a batch or tree (not generated)"); }
+                if self.bulk_released > 0 || self.bulk_held > 0 || !self.sys.doomed.is_empty() { return bail("bulk reactor release while other signals await their collection (not generated)"); }
+                self.guaranteed_gc();
+                let Some(Ev::ReactorBulk { uid, n: n2, leaked }) = self.peek()?.cloned() else { return self.unexpected("bulk reactor release observation"); };
+                if uid != u || n2 != *n as u32 { return self.unexpected("bulk reactor release observation"); }
+                self.advance()?;
+                self.stats.reactor_bulk += 1;
+                if *n as u64 > self.stats.max_reactor_bulk { self.stats.max_reactor_bulk = *n as u64; }
+                let how = if mode % 2 == 0 { "the entity they watched was despawned" } else { "they were revoked in one batch" };
+                if leaked > 0 { fail!(self, "C07", "reactor-leaked", &["C10", "C15"], "{leaked} of {n} ref-counted reactors still exist after {how} and a garbage collection ran"); }
+            }
             WOp::SigBulk(n, m) =>
             {
                 if !self.in_direct_step { return bail("bulk signal op inside a batch or tree (not generated)"); }
@@ -2838,6 +2875,21 @@ impl<'a> Checker<'a>
             }
         }
         Ok(())
+    }
+
+    /// Is an enclosing collection pass busy despawning this entity (or an ancestor of it, recursively)?
+    fn being_taken(&self, e: EntId) -> bool
+    {
+        let mut cur = Some(e);
+        let mut guard = 0;
+        while let Some(x) = cur
+        {
+            if self.gc_taking.contains(&self.ents[x].real) { return true; }
+            cur = self.ents[x].parent;
+            guard += 1;
+            if guard > 16 { break; }
+        }
+        false
     }
 
     fn has_doomed_ancestor(&self, e: EntId) -> bool
